@@ -16,7 +16,9 @@ def exempt_cuts(data):
         if cut < len(data):
             try:
                 f = P.ParquetFile(data[:cut])
-                if not f.validate():
+                # unused bytes between the last chunk and the footer are a writer-quality matter (C05), not a reason for a reader to
+                # refuse: user data holding a complete footer + length + magic IS a complete file for every reader
+                if not [m for m in f.validate() if not m.startswith('data region ends at')]:
                     out.append(cut)
             except P.ParquetError:
                 pass
